@@ -229,10 +229,10 @@ deriving Repr, DecidableEq
 
 /-- /repo as it is now. Fixed since the first run of this check (regression witnesses are kept about
     `Defects.beforeFixes`): `roomRowUnchecked`, `newGroupUserAdminUnchecked` (/repo 77018f3),
-    `newestFirstRead` (/repo f7a29ff). -/
+    `newestFirstRead` (/repo f7a29ff), `duplicateIdsUnchecked` (/repo 846341e). -/
 def Defects.asImplemented : Defects :=
   { placingEdgeUnchecked := true, roomRowUnchecked := false, newGroupUserAdminUnchecked := false,
-    newestFirstRead := false, duplicateIdsUnchecked := true }
+    newestFirstRead := false, duplicateIdsUnchecked := false }
 
 /-- /repo before any of the fixes that this check led to -/
 def Defects.beforeFixes : Defects :=
